@@ -340,7 +340,7 @@ def boundary_cases():
     for f in ["0:G", "2:G", "1:-", "0:r", "0:Ru", "0:su"]:
         out.append(regb + ["ops", "c", "s @ interfaces.eth2.mtu i1400 0", "m @ 0:-", boot_op(f), "c",
                            "s @ interfaces.eth2.mtu i1300 0", "m @ 0:-"])
-    # out-of-range S-VLAN strings loaded into the candidate: ValidateMatchIndex skips such entries
+    # out-of-range S-VLAN strings loaded into the candidate: rejected at commit since /repo 461c9d7
     out.append(regn + ["ops"] + base + [load_op("@", "m"), "m @ 0:-", "c", "s @ interfaces.eth2.mtu i1 0", "m @ 0:-"])
     # the daemon is down: reload and restoring reload both fail
     for f in ["0:Ru", "0:ru", "0:su", "0:u", "0:Rsu"]:
@@ -623,7 +623,7 @@ def monitor(case, line, tolerate=None):
             else:
                 if collides(C):
                     return ("step %d (%s): commit accepted a candidate whose subscriber groups claim the same "
-                            "(S-VLAN, C-VLAN) (ValidateMatchIndex, conf.go:280)" % (i, " ".join(o)))
+                            "(S-VLAN, C-VLAN) or carry an unparseable S-VLAN (ValidateMatchIndex, conf.go:280)" % (i, " ".join(o)))
                 if rb:
                     return "step %d: successful commit rolled back %s" % (i, rb)
                 if "R" in d and not loaded:
@@ -666,6 +666,14 @@ def collides(C):
             sv[p[:-6]] = v
         elif p.startswith("subscriber-groups.") and p.endswith(".cvlan"):
             cv[p[:-6]] = v
+    def num(tok):
+        try:
+            t = bytes.fromhex(tok[1:]).decode() if tok.startswith("s") else None
+            return int(t) if t is not None and t.isdigit() and 1 <= int(t) <= 4094 else None
+        except Exception:
+            return None
+    if any(num(v) is None for v in sv.values()):
+        return True          # an S-VLAN string that does not parse / is out of range must be rejected too (461c9d7)
     claims = [(v, cv.get(k)) for k, v in sv.items()]
     return len(claims) != len(set(claims))
 
